@@ -248,18 +248,19 @@ def run_kani(h, tier):
 # ------------------------------------------------------------------------------------------------
 # native replay / search crate
 
-def build_replay():
-    crate = os.path.join(VERIF, 'replay')
+def build_replay(which='replay'):
+    crate = os.path.join(VERIF, which)
     if not os.path.isdir(crate):
         return None
     env = dict(os.environ)
     env['CARGO_NET_OFFLINE'] = 'true'
-    env['CARGO_TARGET_DIR'] = os.path.join(BUILD, 'replay-target')
+    env['CARGO_TARGET_DIR'] = os.path.join(BUILD, which + '-target')
+    shutil.copyfile(os.path.join(REPO, 'Cargo.lock'), os.path.join(crate, 'Cargo.lock'))
     p = subprocess.run(['cargo', 'build', '--release', '--offline', '-q'], cwd=crate, capture_output=True, text=True, env=env, timeout=900)
     if p.returncode != 0:
-        log('replay crate failed to build:\n' + p.stderr[-2000:])
+        log(which + ' crate failed to build:\n' + p.stderr[-2000:])
         return None
-    return os.path.join(env['CARGO_TARGET_DIR'], 'release', 'replay')
+    return os.path.join(env['CARGO_TARGET_DIR'], 'release', which)
 
 
 def run_search(binary, pid, unit, tier, seed):
@@ -335,7 +336,7 @@ def main(argv):
     os.makedirs(REPLAYS, exist_ok=True)
 
     if replay_file:
-        binary = build_replay()
+        binary = build_replay(P.get('native') if isinstance(P.get('native'), str) else 'replay')
         if binary is None:
             return 2
         p = subprocess.run([binary, 'replay', replay_file])
@@ -443,7 +444,7 @@ def main(argv):
     native = None
     binary = None
     if P.get('native') and (tier == 'thorough' or violations):
-        binary = build_replay()
+        binary = build_replay(P.get('native') if isinstance(P.get('native'), str) else 'replay')
         if binary and tier == 'thorough':
             try:
                 p = subprocess.run([binary, 'sweep', pid, tier, str(seed)], capture_output=True, text=True, timeout=3000)
@@ -473,7 +474,7 @@ def main(argv):
         if 'input' in v:
             inp = v['input']
         elif P.get('native'):
-            binary = binary or build_replay()
+            binary = binary or build_replay(P.get('native') if isinstance(P.get('native'), str) else 'replay')
             unit = v['obligation'].split('/')[0]
             inp = run_search(binary, pid, unit, tier, seed)
         if v.get('proof_step') and not inp:
